@@ -104,8 +104,8 @@ def runToks {σ : Type} (f : σ → String → σ × String) (s : σ) (toks : Li
   | t :: ts => let (s', o) := f s t; o :: runToks f s' ts
 
 /-- the DRBG model as byte source of Model/RandInt -/
-def drawBytes (x : Drbg.Ctx) (n : Nat) : Option (List Nat × Drbg.Ctx) :=
-  (Drbg.randBytes mcfg x n).map fun (b, x') => (b.map (·.toNat), x')
+def drawBytes (x : Drbg.Ctx) (n : Nat) : Option (List UInt8 × Drbg.Ctx) :=
+  Drbg.randBytes mcfg x n
 
 /-- bn_rand (Model/RandInt.bnRand over the DRBG model) -/
 def bnRandModel (w cap : Nat) (x : Drbg.Ctx) (neg : Bool) (bits0 : Nat) : Option (Bn × Drbg.Ctx) :=
@@ -165,6 +165,89 @@ def handle (w cap : Nat) (op : String) (args : List String) (got : String) : Opt
           | none => got == "err" && (bits + w - 1) / w > cap
         | _ => got == "err" && (bits + w - 1) / w > cap
       some { model := m, spec := if okSpec then [got] else ["<a value with at most " ++ toString bits ++ " bits>"] }
+    | _ => none
+  | "bn_rand_st" =>
+    match args with
+    | [seed, sign, bits] => do
+      let seed ← parseBytes seed
+      let bits ← bits.toNat?
+      let x ← Drbg.randSeed mcfg Drbg.init seed
+      -- model: the value and the state after the call (Props/C15.bn_rand_state: one draw of ⌈bits/w⌉·(w/8) bytes); the state is
+      -- shown by the next 16 bytes of the generator
+      let (v, x') := match bnRandModel w cap x (sign == "1") bits with
+        | some (a, x') => (fmtBn w a, x')
+        | none => ("err", x)
+      let nxt := match Drbg.randBytes mcfg x' 16 with
+        | some (b, _) => fmtBytes b
+        | none => "err"
+      let m := v ++ " n:" ++ nxt
+      -- spec: at most `bits` bits (Props/C15.bn_rand_bits); the follow-up bytes are those of Hash_DRBG after one generate of that size
+      let digits := Relic.Model.RandInt.digitsFor w bits
+      let specNext := if digits > cap then (runToks specTok none ["s:" ++ fmtBytes seed, "g:16"]).getLastD "?"
+        else (runToks specTok none ["s:" ++ fmtBytes seed, "g:" ++ toString (digits * (w / 8)), "g:16"]).getLastD "?"
+      let gv := (got.splitOn " ").headD ""
+      let okSpec : Bool := match (gv.splitOn ":u") with
+        | [v, _] => match parseHexInt v with
+          | some z => decide (z.natAbs < 2 ^ bits) && (z ≥ 0 || sign == "1") && (z ≤ 0 || sign == "0")
+          | none => false
+        | _ => gv == "err" && digits > cap
+      some { model := m, spec := if okSpec then [gv ++ " n:" ++ specNext] else ["<a value with at most " ++ toString bits ++ " bits> n:" ++ specNext],
+             tags := ["bn_rand", if bits == 0 then "bn_rand.zero" else if bits % w == 0 then "bn_rand.nomask" else "bn_rand.mask",
+                      if digits > cap then "bn_rand.refused" else if digits ≤ 1 then "bn_rand.onedigit" else "bn_rand.multi"] }
+    | _ => none
+  | "fp_rand" =>
+    match args with
+    | [seed, _id, ps, bitss, digss] => do
+      let seed ← parseBytes seed
+      let p ← parseHexNat ps
+      let fpBits ← bitss.toNat?
+      let fpDigs ← digss.toNat?
+      if p == 0 then none else
+      let x ← Drbg.randSeed mcfg Drbg.init seed
+      let ctxs := "p=" ++ fmtRaw w (toDigitsN w p fpDigs) ++ " bits=" ++ bitss ++ " digs=" ++ digss
+      let (m, masked) := match Relic.Model.RandInt.fpRand drawBytes w fpDigs fpBits p x with
+        | some (a, x') =>
+          let nxt := match Drbg.randBytes mcfg x' 16 with
+            | some (b, _) => fmtBytes b
+            | none => "err"
+          let masked := match drawBytes x (fpDigs * (w / 8)) with
+            | some (bytes, _) => Relic.Model.RandInt.valDigits w (Relic.Model.RandInt.maskTop (Relic.Model.RandInt.digitsOf bytes w fpDigs) (fpBits % w))
+            | none => 0
+          (ctxs ++ " a=" ++ fmtRaw w (toDigitsN w a fpDigs) ++ " n:" ++ nxt, masked)
+        | none => ("err", 0)
+      -- spec: a reduced element (Props/C15.fp_rand_reduced), the generator advanced by one generate of RLC_FP_DIGS·(w/8) bytes
+      let specNext := (runToks specTok none ["s:" ++ fmtBytes seed, "g:" ++ toString (fpDigs * (w / 8)), "g:16"]).getLastD "?"
+      let ga := ((got.splitOn " a=").getD 1 "").splitOn " n:"
+      let okSpec : Bool := match parseHexNat (ga.headD "") with
+        | some a => decide (a < p) && (ga.headD "").length == fpDigs * (w / 4)
+        | none => false
+      some { model := m, spec := if okSpec then [ctxs ++ " a=" ++ ga.headD "" ++ " n:" ++ specNext] else [ctxs ++ " a=<reduced> n:" ++ specNext],
+             tags := ["fp_rand", if fpBits % w == 0 then "fp_rand.nomask" else "fp_rand.mask",
+                      "fp_rand.sub" ++ toString (min (masked / p) 3)] }
+    | _ => none
+  | "fb_rand" =>
+    match args with
+    | [seed, bitss, digss] => do
+      let seed ← parseBytes seed
+      let fbBits ← bitss.toNat?
+      let fbDigs ← digss.toNat?
+      let x ← Drbg.randSeed mcfg Drbg.init seed
+      let ctxs := "bits=" ++ bitss ++ " digs=" ++ digss
+      let m := match Relic.Model.RandInt.fbRand drawBytes w fbDigs fbBits x with
+        | some (dp, x') =>
+          let nxt := match Drbg.randBytes mcfg x' 16 with
+            | some (b, _) => fmtBytes b
+            | none => "err"
+          ctxs ++ " a=" ++ fmtRaw w dp ++ " n:" ++ nxt
+        | none => "err"
+      -- spec: degree below RLC_FB_BITS (Props/C15.fb_rand_degree), the generator advanced by one generate of RLC_FB_DIGS·(w/8) bytes
+      let specNext := (runToks specTok none ["s:" ++ fmtBytes seed, "g:" ++ toString (fbDigs * (w / 8)), "g:16"]).getLastD "?"
+      let ga := ((got.splitOn " a=").getD 1 "").splitOn " n:"
+      let okSpec : Bool := match parseHexNat (ga.headD "") with
+        | some a => decide (a < 2 ^ fbBits) && (ga.headD "").length == fbDigs * (w / 4) && fbDigs == Relic.Model.RandInt.digitsFor w fbBits
+        | none => false
+      some { model := m, spec := if okSpec then [ctxs ++ " a=" ++ ga.headD "" ++ " n:" ++ specNext] else [ctxs ++ " a=<degree below m> n:" ++ specNext],
+             tags := ["fb_rand", if fbBits % w == 0 then "fb_rand.nomask" else "fb_rand.mask"] }
     | _ => none
   | _ => none
 
